@@ -25,6 +25,14 @@ type DetQueue struct {
 	shutdown   bool
 	// log of AddAfter calls since last ClearLog (key, deadline ns)
 	Timers []Timer
+	// Candidates (optional) lists the absolute virtual instants (ns) the controller under test can
+	// legitimately be waiting for (startAfter times, finish+delay, ...).  The duration handed to
+	// AddAfter was computed from the PROCESS clock a moment before AddAfter reads it again, so the
+	// recovered deadline is late by however long the process was stalled in between (GC, a busy
+	// machine); snapping to the nearest candidate at or before the recovered instant makes the
+	// recovery exact for stalls up to SnapTolerance instead of half a millisecond.
+	Candidates    func() []int64
+	SnapTolerance time.Duration
 }
 
 type Timer struct {
@@ -88,7 +96,23 @@ func (q *DetQueue) AddAfter(item interface{}, d time.Duration) {
 		q.Add(item)
 		return
 	}
-	abs := time.Now().Add(d).Round(time.Millisecond).UnixNano()
+	raw := time.Now().Add(d)
+	abs := raw.Round(time.Millisecond).UnixNano()
+	if q.Candidates != nil {
+		tol := int64(q.SnapTolerance)
+		if tol == 0 {
+			tol = int64(200 * time.Millisecond)
+		}
+		best, found := int64(0), false
+		for _, c := range q.Candidates() {
+			if c <= raw.UnixNano()+int64(time.Millisecond/2) && raw.UnixNano()-c < tol && (!found || c > best) {
+				best, found = c, true
+			}
+		}
+		if found {
+			abs = best
+		}
+	}
 	deadline = abs
 	if d <= time.Second || deadline < now+int64(time.Second) {
 		deadline = now + int64(time.Second)
